@@ -1411,4 +1411,73 @@ theorem bgPosLayers_noComma (cur vs : List Tok) (h : ∀ t ∈ vs, isComma t = f
     simp
 
 
+/-! ## Decimal -/
+
+theorem dropZeros_sub (l : List Char) : ∀ c ∈ dropZeros l, c ∈ l := by
+  induction l with
+  | nil => simp [dropZeros]
+  | cons a r ih =>
+    intro c hc
+    unfold dropZeros at hc
+    split at hc
+    · rename_i heq
+      have : r = _ := (List.cons.inj heq).2
+      subst this
+      exact List.mem_cons_of_mem _ (ih c hc)
+    · exact hc
+
+theorem dropTrailZeros_sub (l : List Char) : ∀ c ∈ dropTrailZeros l, c ∈ l := by
+  intro c hc
+  unfold dropTrailZeros at hc
+  have := dropZeros_sub l.reverse c (by simpa using hc)
+  simpa using this
+
+theorem mem_takeWhile_sub {p : Char → Bool} (l : List Char) : ∀ c ∈ l.takeWhile p, c ∈ l := by
+  induction l with
+  | nil => simp
+  | cons a r ih =>
+    intro c hc
+    simp only [List.takeWhile_cons] at hc
+    split at hc
+    · rcases List.mem_cons.mp hc with e | e
+      · exact e ▸ List.mem_cons_self
+      · exact List.mem_cons_of_mem _ (ih c e)
+    · cases hc
+
+theorem mem_dropWhile_sub {p : Char → Bool} (l : List Char) : ∀ c ∈ l.dropWhile p, c ∈ l := by
+  induction l with
+  | nil => simp
+  | cons a r ih =>
+    intro c hc
+    simp only [List.dropWhile_cons] at hc
+    split at hc
+    · exact List.mem_cons_of_mem _ (ih c hc)
+    · exact hc
+
+/-- every byte of `minify.Decimal(s, 0)` is a byte of `s`, a `0`, a `-` or a `.` -/
+theorem decimal0_chars (s : List Char) : ∀ c ∈ decimal0 s, c ∈ s ∨ c = '0' ∨ c = '-' ∨ c = '.' := by
+  intro c hc
+  unfold decimal0 at hc
+  split at hc
+  · exact Or.inl hc
+  · simp only at hc
+    generalize hb : (if (s.head? == some '-' || s.head? == some '+') = true then s.drop 1 else s) = body at hc
+    have hbody : ∀ x ∈ body, x ∈ s := by
+      intro x hx
+      rw [← hb] at hx
+      split at hx
+      · exact List.mem_of_mem_drop hx
+      · exact hx
+    generalize hk : min (countZeros (List.takeWhile (fun x => x != '.') body)) (body.length - 1) = k at hc
+    have hip : ∀ x ∈ List.drop k (List.takeWhile (fun x => x != '.') body), x ∈ s :=
+      fun x hx => hbody x (mem_takeWhile_sub _ x (List.mem_of_mem_drop hx))
+    have hfp : ∀ x ∈ dropTrailZeros (List.drop 1 (List.dropWhile (fun x => x != '.') body)), x ∈ s :=
+      fun x hx => hbody x (mem_dropWhile_sub _ x (List.mem_of_mem_drop (dropTrailZeros_sub _ x hx)))
+    generalize List.drop k (List.takeWhile (fun x => x != '.') body) = ip at hc hip
+    generalize dropTrailZeros (List.drop 1 (List.dropWhile (fun x => x != '.') body)) = fp at hc hfp
+    repeat' split at hc
+    all_goals
+      (try simp only [List.mem_cons, List.mem_append, List.mem_nil_iff, or_false] at hc)
+      grind
+
 end Verif.Proofs.Css
